@@ -106,8 +106,22 @@ func interestingOffsets(in []byte) []int {
 
 // Schedule draws a read schedule for an input: a list of chunk sizes.
 func Schedule(t *rapid.T, in []byte) []int {
-	mode := rapid.IntRange(0, 5).Draw(t, "smode")
+	mode := rapid.IntRange(0, 6).Draw(t, "smode")
 	switch mode {
+	case 6: // every data read followed by an empty read (many (0, nil) results in total)
+		n := len(in)
+		if n > 400 {
+			n = 400
+		}
+		step := rapid.IntRange(1, 3).Draw(t, "zstep")
+		var s []int
+		for i := 0; i < n; i += step {
+			s = append(s, step, 0)
+			if rapid.IntRange(0, 9).Draw(t, "zz") == 0 {
+				s = append(s, 0, 0)
+			}
+		}
+		return s
 	case 0: // single read
 		return nil
 	case 1: // all one-byte reads (bounded so long inputs stay cheap)
